@@ -46,7 +46,7 @@ def match(pid, case, res):
     for k in _KNOWN:
         if k.get('property') != pid:
             continue
-        if k.get('site') and res.site and k['site'] != res.site:
+        if k.get('site') and res.site and not str(res.site).startswith(k['site']):
             continue
         pred = PREDICATES.get(k.get('when'))
         if pred is None:
@@ -57,3 +57,12 @@ def match(pid, case, res):
         except Exception:
             continue
     return None
+
+
+@predicate('multichar-rv-names')
+def _multichar(case, res):
+    """Variables addressed by names longer than one character: dit.utils.flatten splits such
+    names into characters, so parse_rvs rejects them."""
+    names = case.get('names') or []
+    msg = (res.oracle_fail or '') + (res.mismatch or '')
+    return bool(case.get('byname')) and any(len(str(n)) > 1 for n in names) and 'rvs' in msg and 'raised' in msg
